@@ -16,6 +16,34 @@ def task_is_equal():
     return Task(w, Node.is_equal, con, name="C18/is_equal").run()
 
 
+def task_lcard():
+    """L-card is machine-checked: lemmas/LCard.lean (Lean 4 + Mathlib) is compiled on every run; no `sorry`, no extra axioms"""
+    import shutil, subprocess
+    from pyvc.task import TaskResult
+    from pyvc.core import ObRec
+    r = TaskResult("C18/lemma:L-card")
+    path = os.path.join(common.ROOT, "lemmas", "LCard.lean")
+    src = open(path, encoding="utf-8").read()
+    t0 = time.time()
+    if shutil.which("lean") is None:
+        r.obs.append(ObRec("C18/lemma:L-card/lean-proof", "undecided", 0.0, "lean is not on PATH", kind="lemma-lean"))
+        return r
+    if "sorry" in src or "\naxiom " in src or "admit" in src:
+        r.obs.append(ObRec("C18/lemma:L-card/lean-proof", "undecided", 0.0, "the Lean file contains sorry / axiom / admit", kind="lemma-lean"))
+        return r
+    try:
+        p = subprocess.run(["lean", path], capture_output=True, text=True, timeout=900, cwd=os.path.dirname(path))
+        ok = p.returncode == 0 and "error" not in p.stdout and "sorry" not in p.stdout
+        detail = (p.stdout + p.stderr)[-600:]
+    except Exception as ex:  # noqa
+        ok, detail = False, repr(ex)
+    r.obs.append(ObRec("C18/lemma:L-card/lean-proof", "proved" if ok else "undecided", time.time() - t0, "" if ok else detail, kind="lemma-lean"))
+    r.assumptions.add("L-card: proved in Lean 4 + Mathlib (lemmas/LCard.lean: lcard_le, lcard_eq) for the abstract model of an insertion-ordered dict (n positions, "
+                      "an injective key function); the z3 side uses the two implications as instances for the dict pairs that is_equal compares — the "
+                      "correspondence between the heap encoding's dkey/dpos bijection and that abstract model is by inspection of dict_wf")
+    return r
+
+
 def bounded(tier):
     from props import native as nat
     from metapype.model.node import Node
@@ -129,10 +157,10 @@ def bounded(tier):
 
 def main(tier, seed):
     t0 = time.time()
-    specs = [("props.C18", "task_is_equal", {})]
+    specs = [("props.C18", "task_is_equal", {}), ("props.C18", "task_lcard", {})]
     results = common.run_tasks(specs)
     b = bounded(tier)
     return common.decide(PID, tier, seed, results, b, t0, "DESIGN.md §4 C18",
-                         extra_assumptions=["L-card: finite-cardinality lemma for insertion-ordered dicts (axiom instances; not proved)",
+                         extra_assumptions=[
                                             "precondition PD: positionally corresponding nodes of the two trees are distinct objects "
                                             "(implied by 'two distinct trees'; comparing a tree with itself is outside the property)"])
